@@ -98,12 +98,16 @@ class sint(metaclass=_IntMeta):
         return int(x)
 
 
-def sbool(x=False):
-    if isinstance(x, core.SBool):
+class _BoolMeta(type):
+    def __instancecheck__(cls, x):
+        return isinstance(x, bool)
+
+
+class sbool(metaclass=_BoolMeta):
+    """bool() -- concretises a symbolic condition by forking"""
+
+    def __new__(cls, x=False):
         return bool(x)
-    if isinstance(x, core.SNum):
-        return bool(x)
-    return bool(x)
 
 
 # ------------------------------------------------------------------------------------------------ AST helpers
@@ -231,6 +235,12 @@ class NPProxy:
 
     @staticmethod
     def _dt(dtype):
+        if dtype is sbool:
+            return bool
+        if dtype is sint:
+            return int
+        if dtype is sstr:
+            return str
         if dtype is None or dtype is float or dtype is sfloat or dtype == 'float':
             return object
         try:
